@@ -473,21 +473,37 @@ def _worker(spec, jobs, verif_seed, known, wfd, deadline, wid, nworkers):
     indices first+wid, first+wid+nworkers, ..."""
     agg = Agg()
     try:
+        # the jobs are served round-robin in slices, so that a wall-clock
+        # cap cuts every class (and depth) short by the same proportion
+        # instead of starving the ones listed last
+        state = []
         for job in jobs:
             cls, n, timeout, first = job[:4]
             depth = job[4] if len(job) > 4 else 1
-            i = wid
-            while i < n:
-                if time.monotonic() > deadline:
-                    break
-                index = first + i
-                sc = make_scenario(spec, cls, verif_seed, index, depth)
-                sc = calibrate(spec, cls, sc, known, timeout)
-                res = fork_eval(spec, cls, sc, known, timeout)
-                if res.get("verdict") == "violation":
-                    res["scenario"] = sc
-                agg.add(cls if depth == 1 else cls + "+deep", index, res, sc)
-                i += nworkers
+            state.append([cls, n, timeout, first, depth, wid])
+        slice_runs = 8
+        pending = True
+        while pending and time.monotonic() <= deadline:
+            pending = False
+            for st in state:
+                cls, n, timeout, first, depth, i = st
+                done = 0
+                while i < n and done < slice_runs:
+                    if time.monotonic() > deadline:
+                        break
+                    index = first + i
+                    sc = make_scenario(spec, cls, verif_seed, index, depth)
+                    sc = calibrate(spec, cls, sc, known, timeout)
+                    res = fork_eval(spec, cls, sc, known, timeout)
+                    if res.get("verdict") == "violation":
+                        res["scenario"] = sc
+                    agg.add(cls if depth == 1 else cls + "+deep", index, res,
+                            sc)
+                    i += nworkers
+                    done += 1
+                st[5] = i
+                if i < n:
+                    pending = True
         data = json.dumps(agg.to_wire(), default=repr).encode()
     except BaseException:
         data = json.dumps(dict(worker_error=traceback.format_exc())).encode()
